@@ -26,6 +26,9 @@ import (
 type structEncoder struct {
 	fields   []FieldAccessor
 	metadata []byte
+	// the encoder is registered before its fields are known (a struct may refer to its own
+	// type): the lock keeps other goroutines from using it until they are
+	sync.RWMutex
 }
 
 func (valenc *structEncoder) Encode(enc *Encoder, v interface{}) {
@@ -33,7 +36,10 @@ func (valenc *structEncoder) Encode(enc *Encoder, v interface{}) {
 }
 
 func (valenc *structEncoder) Write(enc *Encoder, v interface{}) {
+	valenc.RLock()
 	fields := valenc.fields
+	metadata := valenc.metadata
+	valenc.RUnlock()
 	n := len(fields)
 	t := reflect.TypeOf(v)
 	st := t
@@ -44,7 +50,7 @@ func (valenc *structEncoder) Write(enc *Encoder, v interface{}) {
 	}
 	var r = enc.WriteStructType(st, func() {
 		enc.AddReferenceCount(n)
-		enc.buf = append(enc.buf, valenc.metadata...)
+		enc.buf = append(enc.buf, metadata...)
 	})
 	enc.SetReference(v)
 	p := reflect2.PtrOf(v)
@@ -84,6 +90,8 @@ func getNamedStructEncoder(t reflect.Type) ValueEncoder {
 
 func newNamedStructEncoder(t reflect.Type, name string, tag ...string) *structEncoder {
 	encoder := &structEncoder{}
+	encoder.Lock()
+	defer encoder.Unlock()
 	registerNamedStructEncoder(t, encoder)
 	fields := getFields(t, tag...)
 	n := len(fields)
